@@ -123,6 +123,29 @@ class Ctx:
         except AnalysisError as exc:
             self.defer(str(exc))
 
+    def explain(self, decided_failed: bool, check, *args, **kw) -> None:
+        """Run a structural clause that only *explains* what an evaluated clause of the same property decides.
+
+        Its reports are issued when the deciding clause failed as well (``decided_failed``); otherwise they become
+        notes: a reading of the code's shape that the evaluation of the same code does not confirm is a spelling the
+        reading does not know, not a violation.  Analysis errors of the reading are treated the same way."""
+        from . import AnalysisError
+
+        held = []
+        self.bad = lambda *a, **k: held.append((a, k))  # type: ignore[method-assign]
+        try:
+            check(*args, **kw)
+        except (AnalysisError, IndexError, KeyError, AttributeError, TypeError) as exc:
+            if decided_failed:
+                self.note(f"structural reading failed: {exc}"[:300])
+        finally:
+            del self.bad
+        for a, k in held:
+            if decided_failed:
+                self.bad(*a, **k)
+            else:
+                self.note(f"structural reading not confirmed by the evaluated clause (no report): {a[0]}: {a[3] if len(a) > 3 else a}"[:300])
+
     def defer(self, text: str) -> None:
         """A clause that could not be analysed: fails the run as ANALYSIS-ERROR once the other rules have reported."""
         self.deferred.append(text)
